@@ -79,18 +79,18 @@ def stamp(o):
 # uninterpreted real functions shared by the whole run (A-REAL)
 R = z3.RealSort()
 I = z3.IntSort()
-exp10 = z3.Function('exp10', R, R)
-log10 = z3.Function('log10', R, R)
-fexp = z3.Function('exp', R, R)
-flog = z3.Function('log', R, R)
-fsqrt = z3.Function('sqrt', R, R)
-fcos = z3.Function('cos', R, R)
-fsin = z3.Function('sin', R, R)
-fceil = z3.Function('ceil', R, I)
-ffloor = z3.Function('floor', R, I)
-fpow = z3.Function('pow', R, R, R)
-pow2 = z3.Function('pow2', I, I)
-flog2 = z3.Function('log2', R, R)
+exp10 = z3.Function('u_exp10', R, R)
+log10 = z3.Function('u_log10', R, R)
+fexp = z3.Function('u_exp', R, R)
+flog = z3.Function('u_log', R, R)
+fsqrt = z3.Function('u_sqrt', R, R)
+fcos = z3.Function('u_cos', R, R)
+fsin = z3.Function('u_sin', R, R)
+fceil = z3.Function('u_ceil', R, I)
+ffloor = z3.Function('u_floor', R, I)
+fpow = z3.Function('u_pow', R, R, R)
+pow2 = z3.Function('u_pow2', I, I)
+flog2 = z3.Function('u_log2', R, R)
 str_of_int = None
 
 
@@ -439,17 +439,17 @@ class Interp(object):
 
     def pow(self, a, b, npres=False):
         ca, cb = self.const_of(a), self.const_of(b)
-        if isinstance(cb, int) and not isinstance(b, SV):
-            if cb == 2:
-                return self.binop('Mult', a, a)
-            if 0 <= cb <= 8:
-                r = 1
-                for _ in range(cb):
-                    r = self.binop('Mult', r, a)
-                return r
-        if cb is not None and cb == 2 and self.kind(b) == 'real':
-            x = self.z(a, 'real')
-            return self.mk(x * x, 'real', npres)
+        if cb is not None and cb == int(cb) and 0 <= cb <= 8 and not isinstance(a, Inf):
+            n = int(cb)
+            isreal = self.kind(a) == 'real' or self.kind(b) == 'real'
+            if n == 0:
+                return self.mk(z3.RealVal(1), 'real', npres) if isreal else 1
+            r = a
+            for _ in range(n - 1):
+                r = self.binop('Mult', r, a)
+            if isreal and self.kind(r) != 'real':
+                r = self.mk(self.z(r, 'real'), 'real', npres)
+            return r
         if ca is not None and ca == 10:
             self.real_axioms()
             return self.mk(exp10(self.z(b, 'real')), 'real', npres)
@@ -744,7 +744,23 @@ class Interp(object):
 
     def pure_elem_nofork(self, s, k):
         """element k of a symbolic sequence of scalars as one term (overlays become an ite chain)"""
-        v = s.fn(self, k)
+        if isinstance(s, Seq):
+            if not s.items:
+                raise Unsupported('element of an empty sequence')
+            v = s.items[-1]
+            kd = self.kind(v)
+            for i in range(len(s.items) - 2, -1, -1):
+                if self.kind(s.items[i]) != kd:
+                    raise Unsupported('mixed element kinds in a quantified context')
+                v = self.mk(z3.If(k == i, self.z(s.items[i]), self.z(v)), kd)
+            return v
+        if isinstance(s, RangeV):
+            return self.mk(self.z(s.start, 'int') + k, 'int')
+        self.ctx.quant_mode += 1
+        try:
+            v = s.fn(self, k)
+        finally:
+            self.ctx.quant_mode -= 1
         if not isinstance(v, (SV, int, str, bool)):
             raise Unsupported('structured element in a quantified context')
         for (oi, ov) in s.overlays:
@@ -756,6 +772,7 @@ class Interp(object):
 
     def pure_elem(self, s, k):
         """element k of a symbolic sequence without forking (must be a scalar)"""
+        return self.pure_elem_nofork(s, k)
         v = s.fn(self, k)
         if not (isinstance(v, (SV, int, str, bool))):
             raise Unsupported('quantified use of a structured sequence element')
@@ -1162,7 +1179,7 @@ class Interp(object):
         if isinstance(s, Seq):
             return len(s.items)
         if isinstance(s, SymSeq):
-            return s.n
+            return s.n if isinstance(s.n, (int, SV)) else self.mk(s.n, 'int')
         if isinstance(s, RangeV):
             if isinstance(s.start, int) and isinstance(s.stop, int):
                 return max(0, s.stop - s.start)
@@ -1262,7 +1279,7 @@ class Interp(object):
                 return self.seq_get_sym(s, z3.IntVal(key % n if n else 0))
             raise_py('IndexError', '%s index out of range' % getattr(s, 'kind', 'sequence'))
         kz, nz = self.z(key, 'int'), self.z(n, 'int')
-        if not self.ctx.branch(z3.And(-nz <= kz, kz < nz)):
+        if not self.ctx.branch(z3.And(-nz <= kz, kz < nz), safety=False):
             raise_py('IndexError', '%s index out of range' % getattr(s, 'kind', 'sequence'))
         idx = z3.simplify(z3.If(kz < 0, kz + nz, kz))
         if isinstance(key, int):
@@ -1716,7 +1733,7 @@ class Interp(object):
     def call_closure(self, fv, args, kwargs):
         q = self.qual_of(fv)
         cc = self.call_contracts.get(q)
-        if cc is not None and self.fn_stack and self.fn_stack[-1] != q:
+        if cc is not None and len(self.fn_stack) > getattr(self, 'entry_depth', 0):
             self.ctx.use_axiom('contract:' + q)
             return cc(self, args, kwargs)
         env = self.bind_args(fv, args, kwargs)
